@@ -51,6 +51,8 @@ type Service struct {
 	metrics       *metrics
 	blockMap      map[peer.ID]blockInfo
 	blockMu       sync.Mutex
+	hsMu          sync.Mutex
+	hsInflight    map[peer.ID][]chan struct{}
 }
 
 type ProviderRegistry interface {
@@ -187,6 +189,7 @@ func New(opts *Options) (*Service, error) {
 		logger:        opts.Logger,
 		metrics:       metrics,
 		blockMap:      make(map[peer.ID]blockInfo),
+		hsInflight:    make(map[peer.ID][]chan struct{}),
 	}
 	s.peers.setDisconnector(s)
 	conngtr.setBlocker(s)
@@ -210,8 +213,59 @@ func (s *Service) SetNotifier(n p2p.Notifier) {
 	s.notifier = n
 }
 
+// beginHandshake records that an inbound handshake with the peer is in progress.
+// The returned function must be called once the handshake has been fully
+// processed, i.e. after the peer has been registered or refused.
+func (s *Service) beginHandshake(peerID peer.ID) func() {
+	done := make(chan struct{})
+	s.hsMu.Lock()
+	s.hsInflight[peerID] = append(s.hsInflight[peerID], done)
+	s.hsMu.Unlock()
+
+	return func() {
+		s.hsMu.Lock()
+		chans := s.hsInflight[peerID]
+		for i, c := range chans {
+			if c == done {
+				chans = append(chans[:i], chans[i+1:]...)
+				break
+			}
+		}
+		if len(chans) == 0 {
+			delete(s.hsInflight, peerID)
+		} else {
+			s.hsInflight[peerID] = chans
+		}
+		s.hsMu.Unlock()
+		close(done)
+	}
+}
+
+// waitHandshake blocks until no inbound handshake with the peer is in progress.
+func (s *Service) waitHandshake(peerID peer.ID) {
+	for {
+		// the slice is rewritten in place by finishing handshakes, so the channel
+		// to wait on has to be picked while the lock is held
+		var first chan struct{}
+		s.hsMu.Lock()
+		if chans := s.hsInflight[peerID]; len(chans) > 0 {
+			first = chans[0]
+		}
+		s.hsMu.Unlock()
+		if first == nil {
+			return
+		}
+		select {
+		case <-first:
+		case <-s.baseCtx.Done():
+			return
+		}
+	}
+}
+
 func (s *Service) handleConnectReq(streamlibp2p network.Stream) {
 	peerID := streamlibp2p.Conn().RemotePeer()
+	defer s.beginHandshake(peerID)()
 
 	stream := newStream(streamlibp2p, nil, nil)
 	peer, err := s.hsSvc.Handle(s.baseCtx, stream, peerID)
@@ -305,6 +359,12 @@ func (s *Service) AddStreamHandlers(streams ...p2p.StreamDesc) {
 			func(streamlibp2p network.Stream) {
 				peerID := streamlibp2p.Conn().RemotePeer()
 				p, found := s.peers.getPeer(peerID)
+				if !found {
+					// The remote may open streams as soon as its side of the
+					// handshake is done, which can be before we registered it.
+					s.waitHandshake(peerID)
+					p, found = s.peers.getPeer(peerID)
+				}
 				if !found {
 					s.logger.Error("received stream from unknown peer", "peer", peerID)
 					_ = streamlibp2p.Reset()
